@@ -119,7 +119,8 @@ func c01Families() []c01Family {
 	S := tmplx.Slot
 	fTag := tmplx.T("<a", "<A", "<img", "<x-y", " ", "\f", "\t", "\r", "\v", "\xa0", "/", "=", "href", "title", "TiTle", "data-x", "\"", "'", ">", "/>", "x", "</a>", "</A\f>", S)
 	fRaw := tmplx.T("<script>", "<style>", "<textarea>", "<title>", "<TITLE>", "</script>", "</SCRIPT\f>", "</script\r>", "</textarea ", "</titlex", "</", "<", "x", "<!--", "-->", ">", S)
-	fCmt := tmplx.T("<!--", "-->", "--!>", "<!-->", "<!--->", "-", "!", ">", "<", "x", "<a title=\"", "\"", S)
+	fCmt := append(tmplx.T("<!--", "-->", "--!>", "<!-->", "<!--->", "-", "!", ">", "<", "x", "<a title=\"", "\"", S),
+		tmplx.Frag{Text: `{{template "h" $}}`}, tmplx.Frag{Text: `{{template "bh" $}}`})
 	fDecl := tmplx.T("<!DOCTYPE html>", "<!doctype", "<![CDATA[", "]]>", "<?", "?>", "</ ", "<1", "&lt", "&#", "x", ">", "<!", S)
 	core10 := tmplx.T("<a ", "href=\"", "title='", "\"", "'", ">", "x", "/x?", S, "</a>")
 	fCtl := append(append([]tmplx.Frag{}, core10...), tmplx.If, tmplx.Else, tmplx.End, tmplx.Range, tmplx.With,
@@ -487,7 +488,7 @@ func c01ProductFamilies(thorough bool) []c01Product {
 		mixed := strings.ToUpper(el[:1]) + el[1:]
 		raws = append(raws, c01Product{"rawend-" + el, [][]string{
 			{"<" + el + ">", "<" + up + ">", "<" + el + " a=\"b\">"},
-			{"", "x", "<", "</", "<!--", "<!--<" + el + ">", "</" + el, "<" + el + ">"},
+			{"", "x", "<", "</", "<!--", "<!--<" + el + ">", "</" + el, "<" + el + ">", "\u023a", "\xf8", "\u0130\u023e"},
 			{"</" + el, "</" + up, "</" + mixed, "< /" + el, "</ " + el, "<\\/" + el},
 			after,
 			{S, "<b>" + S, "-->" + S},
